@@ -26,7 +26,7 @@ func init() {
 		Level: "exploration",
 		Cases: func(tier string) int { return tierN(tier, 4000, 80000) },
 		Run:   runC15,
-		Rule: "case = sequential history of 60-140 blockstore calls (Put, PutMany, Get, Has, GetSize, DeleteBlock, HashOnRead toggles) over 8-30 blocks of sizes {0,1,31,32,100,4096,~70KiB} hashed with sha2-256, sha2-512, blake2b-256 or identity, addressed through CIDv0/v1 x raw/dag-pb/dag-cbor aliases, plus deliberately mismatching (CID, bytes) pairs; every method is also called with a cancelled context; IndexBitSize(8) so real hashes share buckets; compared call by call with a reference map keyed by multihash and the expected error classes; " +
+		Rule: "case = sequential history of 60-140 blockstore calls (Put, PutMany, Get, Has, GetSize, DeleteBlock, HashOnRead toggles) over 8-30 blocks of sizes {0,1,31,32,100,4096,~70KiB} hashed with sha2-256, sha2-512 (a third of them truncated to 16/20/28 bytes), blake2b-256 or identity, addressed through CIDv0/v1 x raw/dag-pb/dag-cbor aliases, plus deliberately mismatching (CID, bytes) pairs; every method is also called with a cancelled context; IndexBitSize(8) so real hashes share buckets; in a third of the cases the primary file-size limit equals the exact total size of the first 2-4 records, which are stored first; compared call by call with a reference map keyed by multihash and the expected error classes; " +
 			"non-trivial iff the run exercised a cancelled-context call, an alias lookup, a wrong-hash probe with the flag on and with it off, a delete and an empty block; distinct = hash of the call list",
 		Assumptions: []string{
 			"multihash digests >= 4 bytes (identity-hashed blocks have >= 4 bytes)",
@@ -58,16 +58,23 @@ func c15MakeBlock(r *rand.Rand, size int, tag uint64) c15Block {
 	if code == multihash.IDENTITY && (size < 4 || size > 100) {
 		code = multihash.SHA2_256
 	}
-	mh, err := multihash.Sum(data, code, -1)
+	length := -1
+	if (code == multihash.SHA2_256 || code == multihash.SHA2_512) && size >= 8 && r.IntN(3) == 0 {
+		// (only blocks whose bytes are unique: two truncations of one hash would be prefixes of each other,
+		// which the properties' precondition excludes)
+		length = []int{20, 16, 28}[r.IntN(3)] // truncated digests are legal multihashes
+	}
+	mh, err := multihash.Sum(data, code, length)
 	if err != nil {
 		mh, _ = multihash.Sum(data, multihash.SHA2_256, -1)
 		code = multihash.SHA2_256
+		length = -1
 	}
 	b := c15Block{data: data, mh: mh, honest: true}
 	for _, cc := range c15Codecs {
 		b.aliases = append(b.aliases, cid.NewCidV1(cc, mh))
 	}
-	if code == multihash.SHA2_256 {
+	if code == multihash.SHA2_256 && length == -1 {
 		b.aliases = append(b.aliases, cid.NewCidV0(mh))
 	}
 	r.Shuffle(len(b.aliases), func(i, j int) { b.aliases[i], b.aliases[j] = b.aliases[j], b.aliases[i] })
@@ -120,6 +127,22 @@ func runC15(c run.Ctx) *core.CaseResult {
 		blks = append(blks, bad)
 	}
 
+	// exact-fit prologue (a third of the cases): the primary file size limit is the exact sum of the
+	// first k records, which are stored first and in order, so a file is filled to the byte
+	prologue := 0
+	if r.IntN(3) == 0 {
+		k := 2 + r.IntN(3)
+		sum := 0
+		for i := 1; i <= k && i < len(blks); i++ {
+			sum += 4 + len(blks[i].mh) + len(blks[i].data)
+		}
+		if sum > 0 && sum < 60000 {
+			env.Cfg.PrimaryFileSize = uint32(sum)
+			cfg.PrimaryFileSize = uint32(sum)
+			prologue = k
+			res.Flag("exact-fit-prologue")
+		}
+	}
 	var opts []store.Option
 	opts = append(opts, env.Options()...)
 	bs, err := storethehash.OpenHashedBlockstore(context.Background(), env.IndexPath, env.DataPath, opts...)
@@ -193,6 +216,16 @@ func runC15(c run.Ctx) *core.CaseResult {
 		}
 	}
 	p := core.Protect(func() {
+		for i := 1; i <= prologue && i < len(blks); i++ {
+			blk, _ := blocks.NewBlockWithCid(blks[i].data, blks[i].aliases[0])
+			if err := bs.Put(live, blk); err != nil {
+				viol("put-error", "Put(%s) failed: %v", blks[i].aliases[0], err)
+			}
+			if _, ok := model[string(blks[i].mh)]; !ok {
+				model[string(blks[i].mh)] = &blks[i]
+			}
+			calls = append(calls, fmt.Sprintf("put(%s,%d) [prologue]", blks[i].aliases[0], len(blks[i].data)))
+		}
 		for step = 0; step < n; step++ {
 			b := &blks[r.IntN(len(blks))]
 			a := b.aliases[r.IntN(len(b.aliases))]
